@@ -61,6 +61,9 @@ def sort_fns(name):
         return functools.partial(sorted)
     if name == 'rev_input':
         return lambda it, reverse=False: sorted(list(it)[::-1], reverse=reverse)
+    if name == 'one_shot':
+        # a sort function that answers with a one-shot iterator (a heap-based merge sort, reversed(...))
+        return lambda it, reverse=False: iter(sorted(list(it), reverse=reverse))
     if name == 'inverting':
         # the caller's own ordering (largest first): the supplied function decides the order, not the builtin
         return lambda it, reverse=False: sorted(list(it), reverse=not reverse)
@@ -249,12 +252,14 @@ def st_case(draw):
     case['op'] = draw(st.sampled_from(['sort', 'sort', 'groupby']))
     if case['op'] == 'sort':
         case['reverse'] = draw(st.booleans())
-        case['sort_fn'] = draw(st.sampled_from(['sorted', 'sorted', 'wrapper', 'partial', 'rev_input', 'inverting']))
+        case['sort_fn'] = draw(st.sampled_from(['sorted', 'sorted', 'wrapper', 'partial', 'rev_input', 'inverting', 'one_shot']))
         case['reverse_as'] = draw(st.sampled_from(['bool', 'bool', 'int', 'np']))
         if draw(st.integers(0, 5)) == 0:
             case['key_raises'] = [draw(st.integers(0, 7)), draw(st.sampled_from(['StopIteration', 'StopIteration',
                                                                                  'ValueError', 'KeyError']))]
         case['keyless'] = src == 'dict' and draw(st.booleans())
+        if case['keyless'] and case['sort_fn'] == 'one_shot':
+            case['sort_fn'] = 'sorted'  # (the key-less branch indexes with what sort_fn returns: it has to be a list)
         if case['keyless'] and draw(st.booleans()):
             case['sort_fn'] = 'natural'
         if not case['keyless'] and draw(st.integers(0, 3)) == 0:
